@@ -1,4 +1,5 @@
 //! C04 — blinding yields a transaction that verifies and that receivers can unblind.
+use crate::refimpl::Variant as _;
 use elements::confidential::{Asset, AssetBlindingFactor, Nonce, Value, ValueBlindingFactor};
 use elements::secp256k1_zkp::{PublicKey, SecretKey};
 use elements::secp256k1_zkp::Generator;
@@ -35,7 +36,7 @@ pub fn blind_case_with(case: &CtCase, blind_issuances: bool) -> Result<(Transact
             e,
             e,
             case.receivers.keys().collect::<Vec<_>>(),
-            (0..case.tx.output.len()).filter(|i| case.tx.output[*i].nonce.is_explicit()).collect::<Vec<_>>(),
+            (0..case.tx.output.len()).filter(|i| case.tx.output[*i].nonce.v_expl()).collect::<Vec<_>>(),
             case.tx.output.len(),
             case.tx.input.len(),
             case.n_assets,
@@ -46,12 +47,12 @@ pub fn blind_case_with(case: &CtCase, blind_issuances: bool) -> Result<(Transact
 
 pub fn describe(case: &CtCase) -> serde_json::Value {
     json!({
-        "inputs": case.spent.iter().map(|s| if s.value.is_confidential() { "confidential" } else { "explicit" }).collect::<Vec<_>>(),
+        "inputs": case.spent.iter().map(|s| if s.value.v_conf() { "confidential" } else { "explicit" }).collect::<Vec<_>>(),
         "issuances": case.tx.input.iter().filter(|i| i.has_issuance()).count(),
         "assets": case.n_assets,
         "outputs": case.tx.output.iter().enumerate().map(|(i, o)| json!({
             "value": o.value.explicit(),
-            "kind": if o.is_fee() { "fee" } else if case.receivers.contains_key(&i) { "to-blind" } else if o.nonce.is_explicit() { "plain+explicit-nonce" } else { "plain" },
+            "kind": if o.is_fee() { "fee" } else if case.receivers.contains_key(&i) { "to-blind" } else if o.nonce.v_expl() { "plain+explicit-nonce" } else { "plain" },
             "script": format!("{} bytes, first {:02x?}", o.script_pubkey.len(), o.script_pubkey.as_bytes().first())})).collect::<Vec<_>>(),
     })
 }
@@ -118,7 +119,7 @@ pub fn check_blinded(case: &CtCase, tx: &Transaction, map: &BlindMap, ctx: &mut 
                     (Some(a), Some(v)) => (a, v),
                     _ => return Err(Failure::new("generator error: non-explicit output".to_string())),
                 };
-                ensure!(out.asset.is_confidential() && out.value.is_confidential(), "marked output {} is not confidential after blinding", i);
+                ensure!(out.asset.v_conf() && out.value.v_conf(), "marked output {} is not confidential after blinding", i);
                 ensure!(out.script_pubkey == orig.script_pubkey, "blinding changed the script of output {} from {:x} to {:x}", i, orig.script_pubkey, out.script_pubkey);
                 ensure!(out.witness.rangeproof.is_some() && out.witness.surjection_proof.is_some(), "blinded output {} lacks a proof", i);
                 // unblind with the receiver key
